@@ -901,6 +901,8 @@ def correspondence(rep, rng, tier):
     from .. import pipeline as _PL
     translation_tie(rep)
     _PL.section_e2e(rep, rng, tier, n=(120 if tier == 'quick' else 4000))
+    from .. import scenhist
+    scenhist.section(rep, rng, tier, 'C14')        # the names the tables hold are those of THIS stream's records
     k = 1 if tier == 'quick' else 20
     run_section(rep, 'format-primitives', gen_primitives(rng, tier), prim_line, prim_impl, prim_oracle,
                 nontrivial_fn=lambda c, g: g.startswith('ok'), kind_fn=lambda c, g: c[0], rule=RULES['format-primitives'])
@@ -969,6 +971,13 @@ def replay(path):
     if 'replay' not in r:
         print(json.dumps(r, indent=1)[:4000])
         return 1
+    if r['replay'].get('section') == 'scenario-history':
+        from .. import scenhist
+        bad, lines = scenhist.replay(r['replay'])
+        print('\n'.join(lines))
+        if bad:
+            print(f'VIOLATION property=C14 replay={path}')
+        return 1 if bad else 0
     case, sec = r['replay']['case'], r['replay']['section']
     if sec == 'end-to-end':
         return _pl().replay_e2e(case, 'C14', path)
